@@ -389,12 +389,30 @@ package seccomp
 
 //@ lemma emptyValid(ai arch.Info, g SyscallGroup)
 //@   ensures len(g.Names) == 0 && len(g.NamesWithCondtions) == 0 ==> groupValidF(ai, g)
+//@ lemma polRelShape(ai arch.Info, gs []SyscallGroup, k int, o Outcome)
+//@   opaque groupMatchesN
+//@   ensures polRel(ai, gs, k, o) ==> is_Ret(o) || o == Fall(ev_nr(ev))
 //@ lemma polRelFinal(ai arch.Info, dflt uint32, gs []SyscallGroup, o Outcome, o2 Outcome)
 //@   opaque groupMatchesN
 //@   ensures polRel(ai, gs, len(gs), o) && o2 == ite(is_Ret(o), o, Ret(enc(dflt))) ==> polDone(ai, dflt, gs, o2)
 
+// one unfolding of the interpreter (S-std) at an explicit position: in the functions that use it, `run` itself is opaque,
+// so every step of the prologue is an explicit instance
+//@ lemma runStep(prog []bpf.Instruction, pc int, A uint32)
+//@   ensures 0 <= pc && pc < len(prog) && isRet(prog[pc]) ==> run(prog, pc, A) == Ret(unbox(prog[pc], bpf.RetConstant).Val)
+//@   ensures 0 <= pc && pc < len(prog) && istype(prog[pc], bpf.LoadAbsolute) ==> run(prog, pc, A) == run(prog, pc + 1, word(ev, unbox(prog[pc], bpf.LoadAbsolute).Off))
+//@   ensures 0 <= pc && pc < len(prog) && istype(prog[pc], bpf.JumpIf) ==> run(prog, pc, A) == run(prog, pc + 1 + ite(jtest(unbox(prog[pc], bpf.JumpIf).Cond, A, unbox(prog[pc], bpf.JumpIf).Val), unbox(prog[pc], bpf.JumpIf).SkipTrue, unbox(prog[pc], bpf.JumpIf).SkipFalse), A)
+//@   ensures 0 <= pc && pc < len(prog) && istype(prog[pc], bpf.Jump) ==> run(prog, pc, A) == run(prog, pc + 1 + w2i(unbox(prog[pc], bpf.Jump).Skip), A)
+//@   ensures pc == len(prog) && pc >= 0 ==> run(prog, pc, A) == Fall(A)
+//@ lemma emptyBlock(P []bpf.Instruction, gs []SyscallGroup)
+//@   ensures len(P) == 0 ==> closed(P) && retsActUpTo(P, gs, 0)
+//@ lemma singleRet(Q []bpf.Instruction)
+//@   ensures len(Q) == 1 && isRet(Q[0]) ==> strictClosed(Q) && closed(Q)
+//@ lemma strictImpliesOK(R []bpf.Instruction, j int)
+//@   ensures insnStrictOK(R, j) ==> insnOK(R, j)
+
 //@ func (p *Policy) Assemble() ([]bpf.Instruction, error)   properties C01 C03 C04 C05 C07 C13
-//@   opaque groupValidN polDone
+//@   opaque groupValidN polDone polRel groupMatchesN closed strictClosed subBlock retsActUpTo run
 //@   requires p != nil
 //@   requires @api_groups forall(i, 0, len(p.Syscalls), p.Syscalls[i].arch == nil)
 //@   modifies p
@@ -408,6 +426,10 @@ package seccomp
 //@   ensures @c07_action {C07} result1 == nil ==> knownAction(dflt) && len(gs) > 0 && p.arch != nil
 //@   ensures @c07_groups {C07} result1 == nil ==> forall(i, 0, len(gs), groupValidF(*p.arch, gs[i]))
 //@   ensures @closed {C05} result1 == nil ==> closed(result0) && len(result0) >= 4
+//@   ensures @kernel {C05} result1 == nil && len(result0) <= 4096 ==> kernelAccepts(result0)
+//@   use emptyBlock(instructions, gs) at before loop 1
+//@   use polRelZero(*p.arch, gs) at before loop 1
+//@   use runStep(instructions, 0, nr) at before loop 1
 //@   ghost let ins0 = instructions at loop 1 body
 //@   use listsNonEmptyInst(gs, k) at loop 1 body
 //@   use emptyNoMatch(*p.arch, gs[k]) at loop 1 body
@@ -418,44 +440,71 @@ package seccomp
 //@   use catRetsActEmpty(ins0, gs, k) at loop 1 end
 //@   use MT3(instructions, 0, ins0, nr) at loop 1 end
 //@   use MT3(instructions, len(ins0), groupInsts, nr) at loop 1 end
+//@   use runStep(instructions, len(instructions), fall_A(run(groupInsts, 0, nr))) at loop 1 end
+//@   use runStep(groupInsts, 0, nr) at loop 1 end
 //@   use polRelStep(*p.arch, gs, k, run(ins0, 0, nr), run(instructions, 0, nr)) at loop 1 end
 //@   use polRelNoMatch(*p.arch, gs, k, run(ins0, 0, nr)) at loop 1 end
-//@   use polRelZero(*p.arch, gs) at before loop 1
+//@   use polRelShape(*p.arch, gs, k, run(ins0, 0, nr)) at loop 1 end
 //@   ghost let ins1 = instructions at after loop 1
 //@   ghost let prog6 = program at after assign program#6
 //@   ghost let prog7 = program at after assign program#7
+//@   use singleRet(end.instructions) at exit
 //@   use catSubBlocks(instructions, ins1, end.instructions) at exit
 //@   use catClosed(instructions, ins1, end.instructions) at exit
+//@   use catStrict(instructions, ins1, end.instructions) at exit
 //@   use MT3(instructions, 0, ins1, nr) at exit
+//@   use runStep(instructions, len(ins1), fall_A(run(ins1, 0, nr))) at exit
+//@   use polRelFinal(*p.arch, dflt, gs, run(ins1, 0, nr), run(instructions, 0, nr)) at exit
+//@   use polRelShape(*p.arch, gs, len(gs), run(ins1, 0, nr)) at exit
 //@   use catSubBlocks(program, prog7, instructions) at exit
 //@   use MT3(program, len(prog7), instructions, nr) at exit
 //@   use catClosedPrefix(program, prog7, instructions) at exit
-//@   use polRelFinal(*p.arch, dflt, gs, run(ins1, 0, nr), run(instructions, 0, nr)) at exit
-//@   assert @end_ret result1 == nil ==> len(end.instructions) == 1 && isRetOf(end.instructions[0], enc(dflt)) at exit
-//@   assert @tail_ret result1 == nil ==> len(instructions) == len(ins1) + 1 && isRetOf(instructions[len(ins1)], enc(dflt)) at exit
-//@   assert @tail_run result1 == nil ==> run(instructions, len(ins1), fall_A(run(ins1, 0, nr))) == Ret(enc(dflt)) at exit
-//@   assert @block_run {C01 C03} result1 == nil && policyListsNonEmpty(gs) ==> polDone(*p.arch, dflt, gs, run(instructions, 0, nr)) at exit
-//@   assert @block_at result1 == nil ==> run(program, len(prog7), nr) == thenRun(run(instructions, 0, nr), program, len(program)) at exit
-//@   assert @last_ret {C04} result1 == nil ==> len(program) == len(prog7) + len(instructions) && isRetOf(program[len(program) - 1], enc(dflt)) at exit
-//@   assert @lens result1 == nil ==> len(prog7) == len(prog6) + len(x32Filter) && len(prog6) == ite(jumpN <= 255, 3, 4) && len(x32Filter) == ite(p.arch.ID == 3221225534, 2, 0) && jumpN == len(x32Filter) + len(instructions) at exit
-//@   assert @i0 result1 == nil ==> program[0] == prog6[0] && program[1] == prog6[1] && program[2] == prog6[2] && (jumpN > 255 ==> program[3] == prog6[3]) at exit
-//@   assert @ix result1 == nil && p.arch.ID == 3221225534 ==> program[len(prog6)] == x32Filter[0] && program[len(prog6) + 1] == x32Filter[1] at exit
-//@   assert @s0 result1 == nil ==> run(program, 0, Astart) == run(program, 1, ev_arch(ev)) at exit
-//@   assert @tgt {C04} result1 == nil ==> run(program, len(program) - 1, ev_arch(ev)) == Ret(enc(dflt)) at exit
-//@   assert @j1_short {C04} result1 == nil && jumpN <= 255 ==> istype(program[1], bpf.JumpIf) && unbox(program[1], bpf.JumpIf).Cond == 1 && unbox(program[1], bpf.JumpIf).Val == p.arch.ID && unbox(program[1], bpf.JumpIf).SkipTrue == jumpN && unbox(program[1], bpf.JumpIf).SkipFalse == 0 && 2 + jumpN == len(program) - 1 at exit
-//@   assert @j1_long {C04} result1 == nil && jumpN > 255 ==> istype(program[1], bpf.JumpIf) && unbox(program[1], bpf.JumpIf).Cond == 0 && unbox(program[1], bpf.JumpIf).Val == p.arch.ID && unbox(program[1], bpf.JumpIf).SkipTrue == 1 && unbox(program[1], bpf.JumpIf).SkipFalse == 0 && istype(program[2], bpf.Jump) && (len(program) < 4294967296 ==> w2i(unbox(program[2], bpf.Jump).Skip) == jumpN) && 3 + jumpN == len(program) - 1 at exit
-//@   assert @s2_long {C04} result1 == nil && jumpN > 255 && len(program) < 4294967296 ==> run(program, 2, ev_arch(ev)) == Ret(enc(dflt)) at exit
-//@   assert @s1_short {C04} result1 == nil && jumpN <= 255 ==> run(program, 1, ev_arch(ev)) == ite(ev_arch(ev) != p.arch.ID, Ret(enc(dflt)), run(program, 2, ev_arch(ev))) at exit
-//@   assert @s2_short result1 == nil && jumpN <= 255 ==> run(program, 2, ev_arch(ev)) == run(program, 3, nr) at exit
-//@   assert @s1_long {C04} result1 == nil && jumpN > 255 && len(program) < 4294967296 ==> run(program, 1, ev_arch(ev)) == ite(ev_arch(ev) != p.arch.ID, Ret(enc(dflt)), run(program, 3, ev_arch(ev))) at exit
-//@   assert @s3_long result1 == nil && jumpN > 255 ==> run(program, 3, ev_arch(ev)) == run(program, 4, nr) at exit
-//@   assert @sx {C04} result1 == nil && p.arch.ID == 3221225534 ==> run(program, len(prog6), nr) == ite(nr >= 1073741824, Ret(327718), run(program, len(prog6) + 2, nr)) at exit
+//@   use catStrictPrefix(program, prog7, instructions) at exit
+//@   use runStep(program, 0, Astart) at exit
+//@   use runStep(program, 1, ev_arch(ev)) at exit
+//@   use runStep(program, 2, ev_arch(ev)) at exit
+//@   use runStep(program, 3, ev_arch(ev)) at exit
+//@   use runStep(program, len(prog6), nr) at exit
+//@   use runStep(program, len(prog6) + 1, nr) at exit
+//@   use runStep(program, len(program) - 1, ev_arch(ev)) at exit
+//@   use strictImpliesOK(program, 0) at exit
+//@   use strictImpliesOK(program, 1) at exit
+//@   use strictImpliesOK(program, 2) at exit
+//@   use strictImpliesOK(program, 3) at exit
+//@   use strictImpliesOK(program, 4) at exit
+//@   use strictImpliesOK(program, 5) at exit
+//@   hint @end_ret result1 == nil ==> len(end.instructions) == 1 && isRetOf(end.instructions[0], enc(dflt)) at exit
+//@   hint @tail_ret result1 == nil ==> len(instructions) == len(ins1) + 1 && isRetOf(instructions[len(ins1)], enc(dflt)) at exit
+//@   hint @block_run {C01 C03} result1 == nil && policyListsNonEmpty(gs) ==> polDone(*p.arch, dflt, gs, run(instructions, 0, nr)) at exit
+//@   hint @last_ret {C04} result1 == nil ==> len(program) == len(prog7) + len(instructions) && isRetOf(program[len(program) - 1], enc(dflt)) at exit
+//@   hint @lens result1 == nil ==> len(prog7) == len(prog6) + len(x32Filter) && len(prog6) == ite(jumpN <= 255, 3, 4) && len(x32Filter) == ite(p.arch.ID == 3221225534, 2, 0) && jumpN == len(x32Filter) + len(instructions) at exit
+//@   hint @i0 result1 == nil ==> program[0] == prog6[0] && program[1] == prog6[1] && program[2] == prog6[2] && (jumpN > 255 ==> program[3] == prog6[3]) at exit
+//@   hint @ix result1 == nil && p.arch.ID == 3221225534 ==> program[len(prog6)] == x32Filter[0] && program[len(prog6) + 1] == x32Filter[1] at exit
+//@   hint @block_at result1 == nil ==> run(program, len(prog7), nr) == run(instructions, 0, nr) || !is_Ret(run(instructions, 0, nr)) at exit
+//@   hint @tgt {C04} result1 == nil ==> run(program, len(program) - 1, ev_arch(ev)) == Ret(enc(dflt)) at exit
+//@   hint @j1_short {C04} result1 == nil && jumpN <= 255 ==> istype(program[1], bpf.JumpIf) && unbox(program[1], bpf.JumpIf).Cond == 1 && unbox(program[1], bpf.JumpIf).Val == p.arch.ID && unbox(program[1], bpf.JumpIf).SkipTrue == jumpN && unbox(program[1], bpf.JumpIf).SkipFalse == 0 && 2 + jumpN == len(program) - 1 at exit
+//@   hint @j1_long {C04} result1 == nil && jumpN > 255 ==> istype(program[1], bpf.JumpIf) && unbox(program[1], bpf.JumpIf).Cond == 0 && unbox(program[1], bpf.JumpIf).Val == p.arch.ID && unbox(program[1], bpf.JumpIf).SkipTrue == 1 && unbox(program[1], bpf.JumpIf).SkipFalse == 0 && istype(program[2], bpf.Jump) && (len(program) < 4294967296 ==> w2i(unbox(program[2], bpf.Jump).Skip) == jumpN) && 3 + jumpN == len(program) - 1 at exit
+//@   hint @s0 result1 == nil ==> run(program, 0, Astart) == run(program, 1, ev_arch(ev)) at exit
+//@   hint @s1_short {C04} result1 == nil && jumpN <= 255 ==> run(program, 1, ev_arch(ev)) == ite(ev_arch(ev) != p.arch.ID, Ret(enc(dflt)), run(program, 2, ev_arch(ev))) at exit
+//@   hint @s2_short result1 == nil && jumpN <= 255 ==> run(program, 2, ev_arch(ev)) == run(program, 3, nr) at exit
+//@   hint @s2_long {C04} result1 == nil && jumpN > 255 && len(program) < 4294967296 ==> run(program, 2, ev_arch(ev)) == Ret(enc(dflt)) at exit
+//@   hint @s1_long {C04} result1 == nil && jumpN > 255 && len(program) < 4294967296 ==> run(program, 1, ev_arch(ev)) == ite(ev_arch(ev) != p.arch.ID, Ret(enc(dflt)), run(program, 3, ev_arch(ev))) at exit
+//@   hint @s3_long result1 == nil && jumpN > 255 ==> run(program, 3, ev_arch(ev)) == run(program, 4, nr) at exit
+//@   hint @sx {C04} result1 == nil && p.arch.ID == 3221225534 ==> run(program, len(prog6), nr) == ite(nr >= 1073741824, Ret(327718), run(program, len(prog6) + 2, nr)) at exit
+//@   hint @k0 {C05} result1 == nil ==> insnStrictOK(program, 0) && insnStrictOK(program, 2) && (jumpN > 255 ==> insnStrictOK(program, 3)) at exit
+//@   hint @k1 {C05} result1 == nil && len(program) < 4294967296 ==> insnStrictOK(program, 1) && (jumpN > 255 ==> insnStrictOK(program, 2)) at exit
+//@   hint @kx {C05} result1 == nil && p.arch.ID == 3221225534 ==> insnStrictOK(program, len(prog6)) && insnStrictOK(program, len(prog6) + 1) at exit
 //@   loop 1 binder k
 //@     invariant @own own(instructions) && p.arch != nil
 //@     invariant @closed {C05} closed(instructions)
 //@     invariant @rets {C05} retsActUpTo(instructions, gs, k)
 //@     invariant @sem {C01 C03} policyListsNonEmpty(gs) ==> polRel(*p.arch, gs, k, run(instructions, 0, nr))
 //@     invariant @c07 {C07} forall(i, 0, k, groupValidF(*p.arch, gs[i]))
+
+//@ lemma catStrict(R []bpf.Instruction, P []bpf.Instruction, Q []bpf.Instruction)
+//@   ensures isCat(R, P, Q) && closed(P) && strictClosed(Q) && len(Q) >= 1 ==> strictClosed(R)
+//@ lemma catStrictPrefix(R []bpf.Instruction, P []bpf.Instruction, Q []bpf.Instruction)
+//@   ensures isCat(R, P, Q) && strictClosed(Q) && forall(j, 0, len(P), insnStrictOK(R, j)) ==> strictClosed(R)
 
 // a closed block behind an explicit prefix: jumps of the prefix are checked where the prefix is built
 //@ lemma catClosedPrefix(R []bpf.Instruction, P []bpf.Instruction, Q []bpf.Instruction)
